@@ -30,6 +30,7 @@ CLAUSES = {
     "cap.without_post": {"C08"},
     "cap.after_pre_failure": {"C08", "C01"},
     "old.not_prestate": {"C08"},
+    "old.factory_not_given": {"C08", "C09"},
     "post.skipped_on_return": {"C02"},
     "post.evaluated_after_body_raise": {"C02"},
     "post.result_seen": {"C02"},
@@ -187,6 +188,8 @@ def name_clause(diag: dict, prog: dict) -> str:
             return "cap.without_post"
         return "cap.outside_window"
     if ee == "errf.in":
+        if exp[OLD]:
+            return "old.factory_not_given"      # the error factory was to be called with the captured OLD values
         return "err.factory_calls"
     if ae == "errf.in":
         return "err.factory_calls"
@@ -229,6 +232,18 @@ def name_clause(diag: dict, prog: dict) -> str:
     return "proto.unclassified"
 
 
-def attribute(diag: dict, prog: dict) -> Tuple[str, Set[str]]:
+def attribute(diag: dict, prog: dict, prev: Any = None) -> Tuple[str, Set[str]]:
+    """prev: the recorded event before the diverging one (if known)."""
     clause = name_clause(diag, prog)
-    return clause, set(CLAUSES.get(clause, set()))
+    if prev is not None and prev[E] in ("cond.out", "cap.out") and prev[V] in (2, 4) and prev[CLS] == "ret":
+        # the divergence follows a condition / capture that returned a coroutine or another awaitable
+        if any(f["async"] for f in prog["fn"]):
+            clause = "async.not_awaited"
+        else:
+            clause = "async.on_sync_accepted"
+    props = set(CLAUSES.get(clause, set()))
+    if props and any(f["async"] for f in prog["fn"]) and not any(
+            f["async"] is False and f["kind"] not in ("init", "new", "repr", "setattr") for f in prog["fn"]):
+        # only async callables are involved: whatever went wrong is (also) a sync/async discrepancy
+        props.add("C13")
+    return clause, props
